@@ -54,7 +54,15 @@ def case_strategy(draw):
             v["attrs"] = {"max": ["bin", "*", ["int", 2], ["var", "p0"]], "start": ["real", "0.5"]}
         if v["name"] == "s1" and draw(st.booleans()):
             v["attrs"] = {"nominal": ["bin", "+", ["var", "p1"], ["var", "p0"]]}
-    return {"model": m, "seed": draw(st.integers(0, 2**31 - 1)), "delay": delay}
+    # literals that agree in their first six significant digits (they print alike in CasADi) must stay distinct
+    twins = draw(st.sampled_from([None, None, ("3.14159", "3.14159265358979"), ("1000001.0", "1000002.0"),
+                                  ("0.3333333", "0.33333333333"), ("2.0", "2.0000001")]))
+    if twins:
+        a, b = ["var", draw(st.sampled_from(["s0", "s1", "p0"]))], ["var", draw(st.sampled_from(["s1", "s2", "u0"]))]
+        m["eqs"].append(["eq", ["var", "s3"], ["bin", "+", ["bin", "*", ["real", twins[0]], a], ["bin", "*", ["real", twins[1]], b]]])
+    # a base option that is not toggled: the three options are compared with and without expand_vectors
+    base = {"expand_vectors": draw(st.integers(0, 2)) == 0}
+    return {"model": m, "seed": draw(st.integers(0, 2**31 - 1)), "delay": delay, "twins": bool(twins), "base": base}
 
 
 def compare_at_points(m, ref, got, seed, tag):
@@ -69,6 +77,11 @@ def compare_at_points(m, ref, got, seed, tag):
             raise Violation("func_signature:%s" % fn, "%s: %s vs %s" % (tag, func_io(fa), func_io(fb)))
     for _ in range(3):
         env, der = D.make_env(m, rs)
+        for mp in (env, der):  # element names used under expand_vectors
+            for name, val in list(mp.items()):
+                if np.ndim(val) > 0:
+                    for idx in np.ndindex(*np.shape(val)):
+                        mp["%s[%s]" % (name, ",".join(str(i + 1) for i in idx))] = float(np.asarray(val)[idx])
         for v in ref.inputs:
             env.setdefault(v.symbol.name(), rs.uniform(0.5, 3.0, size=(v.symbol.size1(), v.symbol.size2())))
         args = D.model_args(ref, env, der, None)
@@ -100,7 +113,8 @@ def check_case(ctx, case):
             raise Violation("valid_text_rejected", text)
         return t
 
-    base_opts = {"unroll_loops": True, "inline_functions": True, "expand_mx": False}
+    base = case.get("base", {})
+    base_opts = dict(base, unroll_loops=True, inline_functions=True, expand_mx=False)
     try:
         ref = build(fresh_tree(), base_opts)
     except Exception as e:  # noqa: BLE001
@@ -110,8 +124,8 @@ def check_case(ctx, case):
     for unroll, inline, expand in COMBOS:
         if (unroll, inline, expand) == (True, True, False):
             continue
-        opts = {"unroll_loops": unroll, "inline_functions": inline, "expand_mx": expand}
-        tag = "unroll=%d,inline=%d,expand_mx=%d" % (unroll, inline, expand)
+        opts = dict(base, unroll_loops=unroll, inline_functions=inline, expand_mx=expand)
+        tag = "unroll=%d,inline=%d,expand_mx=%d" % (unroll, inline, expand) + ("[expand_vectors]" if base.get("expand_vectors") else "")
         try:
             got = build(fresh_tree(), opts)
         except Exception as e:  # noqa: BLE001
@@ -131,6 +145,9 @@ def check_case(ctx, case):
     labels = sorted(f for f in feats if f.startswith("func:") or f in ("for", "for_shifted", "for_stepped", "if_eq", "user_call", "slice", "array_eq"))
     if case["delay"]:
         labels.append("delay")
+    if case.get("twins"):
+        labels.append("near_equal_literals")
+    labels.append("base:expand_vectors=%s" % bool(base.get("expand_vectors")))
     return dict(nontrivial=True, labels=labels, sample={"text": text})
 
 
@@ -144,7 +161,7 @@ def replay(ctx, case):
 
 MANIFEST = dict(
     text="Differential testing across the 8 representation option sets on generated models that exercise "
-    "loops, function calls and delays: structure, metadata and all four functions must agree with "
+    "loops, function calls, delays and near-equal literals, with and without the untoggled base option expand_vectors: structure, metadata and all four functions must agree with "
     "the default option set at drawn points.",
     note="The default option set is the reference (its own correctness is C11's property); agreement is numeric at sampled points.",
     technique="property-based differential testing across option sets (metamorphic relation)",
